@@ -3,6 +3,7 @@ package props
 import (
 	"fmt"
 	"go/ast"
+	"go/token"
 	"go/types"
 	"regexp"
 	"strings"
@@ -30,6 +31,8 @@ func runC14(c *core.Ctx) {
 	c.Rule("FWD", "Average forwards (retraction, value) unchanged to sum and count")
 	c.Rule("ABS5", "multiset containers: count bookkeeping and membership; Distinct forwards on 0→1 / 1→0 only")
 	c.Rule("TRG", "Trigger reads the right end / order of the container")
+	c.Rule("AVG", "average = running sum / running count")
+	checkAverageTrigger(c)
 	c.Rule("ABS4", "key comparators are ascending")
 
 	// INV
@@ -267,4 +270,49 @@ func checkArrayTrigger(c *core.Ctx) {
 		bad = "no loop `for i := 0; i < item.count; i++ { out = append(out, item.value) }` repeating the value by its multiplicity"
 	}
 	c.Decide(bad == "", "TRG", key, fn.Decl.Pos(), n, "Ascend; each value repeated count times", bad)
+}
+
+// checkAverageTrigger (AVG): the average is the running sum divided by the running count — the payload of the sum's
+// own kind over the count converted to that kind, and nothing else.
+func checkAverageTrigger(c *core.Ctx) {
+	p := c.Prog
+	n := 0
+	for _, fr := range p.AllFuncs("aggregates") {
+		if fr.Decl.Recv == nil || fr.Decl.Name.Name != "Trigger" {
+			continue
+		}
+		rt := core.ExprStr(fr.Decl.Recv.List[0].Type)
+		if !strings.HasPrefix(rt, "*Average") {
+			continue
+		}
+		n++
+		key := "aggregates.(" + rt + ").Trigger"
+		c.SawFunc(key)
+		recv := fr.Decl.Recv.List[0].Names[0].Name
+		bad := "the average must be returned as one expression sum / count"
+		if len(fr.Decl.Body.List) == 1 {
+			if rs, ok := fr.Decl.Body.List[0].(*ast.ReturnStmt); ok && len(rs.Results) == 1 {
+				if call, ok := rs.Results[0].(*ast.CallExpr); ok && strings.HasPrefix(core.ExprStr(call.Fun), "octosql.New") && len(call.Args) == 1 {
+					kind := strings.TrimPrefix(core.ExprStr(call.Fun), "octosql.New")
+					be, ok := call.Args[0].(*ast.BinaryExpr)
+					if !ok || be.Op != token.QUO {
+						bad = "the average is not a quotient: " + core.ExprStr(call.Args[0])
+					} else {
+						num, den := core.ExprStr(be.X), core.ExprStr(be.Y)
+						cnt := recv + ".count.Trigger().Int"
+						okNum := num == recv+".sum.Trigger()."+kind
+						okDen := den == cnt || (strings.HasSuffix(den, "("+cnt+")") && !strings.ContainsAny(strings.TrimSuffix(den, "("+cnt+")"), "+-*/ "))
+						if okNum && okDen {
+							bad = ""
+						} else {
+							bad = fmt.Sprintf("the %s average must be %s.sum.Trigger().%s divided by the (converted) count %s; it is %s / %s", kind, recv, kind, cnt, num, den)
+						}
+					}
+				}
+			}
+		}
+		c.Decide(bad == "", "AVG", key, fr.Decl.Pos(), 1, "sum of the kind / count", bad)
+	}
+	c.Floor("AVG", 3, "AverageInt, AverageFloat, AverageDuration")
+	_ = n
 }
